@@ -727,8 +727,9 @@ class State(object):
                     if w == 1:
                         ent.append((k, ct if ct[0] != 'c' else C(ct[1] & 0xFF)))
                     else:
+                        from .mem import mem_byte
                         for i in range(w):
-                            ent.append(((k[0], k[1] + i), mk_byte(ct, i)))
+                            ent.append(((k[0], k[1] + i), mem_byte(ct, i, w)))
                 cs = frozenset(ent)
             items.append((oid, o.live, o.default, o.zeroed_n, cs))
         fr = tuple(frozenset(f.items()) for f in self.frames)
